@@ -96,6 +96,8 @@ class Executor(Engine):
     # ------------------------------------------------------------------ expression evaluation (code mode)
     def cev(self, node, st, catching=()):
         """Code-mode evaluation: list of (state, V | Outcome(raise))."""
+        if isinstance(node, ast.ListComp) and self.is_copy_comprehension(node):
+            return self.copy_comprehension(node, st, catching)
         if not self.has_contracted_call(node):
             return self.pure_eval(node, st, catching)
         if isinstance(node, ast.Call) and self.resolve_call(node, st) is not None:
@@ -115,6 +117,72 @@ class Executor(Engine):
             return outs
         # hoist contracted calls that are unconditionally evaluated (left to right)
         return self.cev_hoist(node, st, catching)
+
+    def is_copy_comprehension(self, node):
+        """[x.model_copy(deep=True) for x in <list> if <pure filter>]"""
+        if len(node.generators) != 1 or not isinstance(node.generators[0].target, ast.Name):
+            return False
+        e_ = node.elt
+        return (isinstance(e_, ast.Call) and isinstance(e_.func, ast.Attribute) and e_.func.attr == "model_copy"
+                and isinstance(e_.func.value, ast.Name) and e_.func.value.id == node.generators[0].target.id
+                and any(kw.arg == "deep" and isinstance(kw.value, ast.Constant) and kw.value.value is True for kw in e_.keywords)
+                and not e_.args and not any(self.has_contracted_call(c_) for c_ in node.generators[0].ifs)
+                and not self.has_contracted_call(node.generators[0].iter))
+
+    def copy_comprehension(self, node, st, catching):
+        """A list of fresh deep copies of the passing source records, in source order: explicit index functions
+        src (position -> source index) and pos (passing source index -> position), mutually inverse and monotone."""
+        c = self.ctx
+        g = node.generators[0]
+        c.trusted.add("pydantic BaseModel.model_copy(deep=True) returns a fresh object with equal field values")
+        outs = []
+        for s0, xs in self.pure_eval(g.iter, st, catching):
+            if isinstance(xs, Outcome):
+                outs.append((s0, xs))
+                continue
+            if isinstance(xs, VOpt):
+                xs = xs.val
+            if not isinstance(xs, VList) or xs.ety != "Record":
+                raise Unsupported("copy comprehension over " + type(xs).__name__)
+
+            def passes(i, s0=s0, xs=xs):
+                env2 = dict(s0.env)
+                env2[g.target.id] = xs.at(i)
+                self.in_spec += 1
+                try:
+                    return And(*[truthy(c, self.ev(cn, env2, s0)) for cn in g.ifs])
+                finally:
+                    self.in_spec -= 1
+            L = c.fresh("copies", ("list", "Record"))
+            src = c.fun("src", ["Int"], "Int")
+            pos = c.fun("pos", ["Int"], "Int")
+            S = lambda t: app(src, t, sort="Int")
+            P_ = lambda t: app(pos, t, sort="Int")
+            k, k2, i = c.bvar("k", "Int"), c.bvar("k2", "Int"), c.bvar("i", "Int")
+            rngL = lambda t: And(Le(Int(0), t), Lt(t, L.n))
+            rngX = lambda t: And(Le(Int(0), t), Lt(t, xs.n))
+            # new heap: fresh arrays for the Record fields, unchanged on everything allocated before
+            s1 = s0.copy()
+            a0 = s0.alloc_arr(c, "Record")
+            a1 = c.const("A_Record", a0.sort)
+            s1.heap[("alloc", "Record")] = a1
+            x = c.bvar("x", "Rec")
+            facts = [ForAll([x], Implies(Select(a0, x), Select(a1, x)))]
+            for f in FIELDS["Record"]:
+                h0 = s0.harr(c, "Record", f)
+                h1 = c.const(f"H_Record_{f}", h0.sort)
+                s1.heap[("Record", f)] = h1
+                facts.append(ForAll([x], Implies(Select(a0, x), Eq(Select(h1, x), Select(h0, x)))))
+                # each copy has the field values of its source
+                facts.append(ForAll([k], Implies(rngL(k), Eq(Select(h1, L.at(k).t), Select(h0, xs.at(S(k)).t))), pats=[[L.at(k).t]]))
+            facts.append(ForAll([k], Implies(rngL(k), And(rngX(S(k)), passes(S(k)), Eq(P_(S(k)), k),
+                                                       Not(Select(a0, L.at(k).t)), Select(a1, L.at(k).t))), pats=[[L.at(k).t]]))
+            facts.append(ForAll([i], Implies(And(rngX(i), passes(i)), And(rngL(P_(i)), Eq(S(P_(i)), i))), pats=[[xs.at(i).t]]))
+            facts.append(ForAll([k, k2], Implies(And(rngL(k), rngL(k2), Lt(k, k2)), And(Lt(S(k), S(k2)), Not(Eq(L.at(k).t, L.at(k2).t))))))
+            for f_ in facts:
+                s1 = s1.assume(f_)
+            outs.append((s1, L))
+        return outs
 
     def cev_boolop(self, node, st, catching):
         is_and = isinstance(node.op, ast.And)
